@@ -247,7 +247,7 @@ func keyFamily(run *ev.Run, n int) {
 	family(run, "key", n, func(c *tc, i int) (string, bool) {
 		r := rng.New(sKey + uint64(i))
 		d, dclass := genD(r, refP256.n)
-		deep := i%8 == 0
+		deep := i%ev.Pick(8, 32) == 0 // textbook-curve references are costly
 		hunt := r.Intn(12) == 0
 		var priv *keys.PrivateKey
 		var db []byte
